@@ -17,7 +17,7 @@ func init() {
 // One put from an arbitrary store state (0..N items), then gets: the item just put is returned
 // intact, every other id returns what it returned before, a refused put changes nothing.
 //
-//verif:harness C04.put_get_step unwind=40 timeout=120
+//verif:harness C04.put_get_step unwind=40 timeout=240/600 wall=1200/3600
 //verif:use kv
 //verif:param N=2/3
 func vhC04PutGetStep() {
